@@ -81,6 +81,7 @@ func (p pacing) pacer(role, idx, total int) (func(), time.Duration) {
 
 type obsRun struct {
 	progress atomic.Int64
+	runaway  atomic.Bool
 	wg       sync.WaitGroup
 	sent     []*atomic.Int64
 	res      []*[]string
@@ -126,11 +127,18 @@ func (r *obsRun) drain(recv func() (string, bool), pc pacing, idx, total int) {
 			}
 			got = append(got, v)
 			r.progress.Add(1)
+			if len(got) > runawayLimit {
+				// far more output than any input of the harness can justify: a stream that never ends
+				r.runaway.Store(true)
+				break
+			}
 		}
 		*slot = got
 		r.progress.Add(1)
 	}()
 }
+
+const runawayLimit = 100000
 
 var goroutineHeader = regexp.MustCompile(`(?m)^goroutine (\d+) \[([^\]]*)\]:`)
 
@@ -207,6 +215,9 @@ func (r *obsRun) wait(hard time.Duration) (string, string) {
 		case <-fin:
 			return "ok", ""
 		case <-time.After(2 * time.Millisecond):
+		}
+		if r.runaway.Load() {
+			return "runaway", fmt.Sprintf("an output stream delivered more than %d values", runawayLimit)
 		}
 		cur := r.progress.Load()
 		if cur != last {
